@@ -177,19 +177,25 @@ def connectingIdeal (p : Int) (O1 O2 : Lattice) (prevNorm : Int := 0) : LeftIdea
 
 /-! ## certificate checkers for the parts of the C code that are not modelled line by line -/
 
+def idx4 : List Nat := [0, 1, 2, 3]
+
 /-- basis column `k` of a lattice as an algebra element -/
 def latCol (l : Lattice) (k : Nat) : Elem := ⟨l.denom, l.basis.col k⟩
-
-def idx4 : List Nat := [0, 1, 2, 3]
 
 /-- every product (basis vector of `l1`)·(basis vector of `l2`) lies in `l3` (`l3` in HNF, full rank) -/
 def prodsContained (p : Int) (l1 l2 l3 : Lattice) : Bool :=
   idx4.all fun k => idx4.all fun i => (latContains l3 (algMul p (latCol l1 k) (latCol l2 i))).1
 
-/-- basic well-formedness required by `latContains`: HNF basis with non-zero diagonal, non-zero denominator -/
-def latWf (l : Lattice) : Bool :=
-  l.denom != 0 && l.basis.isHnf &&
-  l.basis.get 0 0 != 0 && l.basis.get 1 1 != 0 && l.basis.get 2 2 != 0 && l.basis.get 3 3 != 0
+/-- Hermite normal form with positive diagonal, as a direct formula: zero below the diagonal, `0 < m[r][r]`,
+    `0 ≤ m[r][c] < m[r][r]` to the right of it.  (For a non-zero diagonal this is what `ibz_mat_4x4_is_hnf` tests.) -/
+def isHnfStrict (m : Mat4) : Bool :=
+  idx4.all fun r => decide (0 < m.get r r) && idx4.all fun c =>
+    if c < r then m.get r c == 0
+    else if r < c then decide (0 ≤ m.get r c) && decide (m.get r c < m.get r r)
+    else true
+
+/-- basic well-formedness required by `latContains`: HNF basis with positive diagonal, non-zero denominator -/
+def latWf (l : Lattice) : Bool := l.denom != 0 && l.basis.isHnf && isHnfStrict l.basis
 
 /-- product of the diagonal (= determinant for the upper triangular HNF bases) -/
 def diagProd (m : Mat4) : Int := m.get 0 0 * m.get 1 1 * m.get 2 2 * m.get 3 3
@@ -205,7 +211,7 @@ def covolRatioIs (l1 l2 : Lattice) (a b : Int) : Bool :=
 /-- Certificate check for `quat_lattice_right_transporter(T; L1, L2)`:
     `incl`: `L1 · T ⊆ L2` (all 16 products of basis vectors are in `L2`), so `T ⊆ {x | L1·x ⊆ L2}`. -/
 def isRightTransporterCert (p : Int) (L1 L2 T : Lattice) : Bool :=
-  latWf L2 && T.denom != 0 && prodsContained p L1 T L2
+  latWf L2 && L1.denom != 0 && T.denom != 0 && prodsContained p L1 T L2
 
 /-- For two left ideals `I1, I2` of the same *maximal* order the transporter `I1⁻¹·I2` has covolume
     `covol(O)·(N(I2)/N(I1))²`; together with the inclusion this forces `T` to be the whole transporter. -/
@@ -226,15 +232,24 @@ def isRightOrderCert (p : Int) (I : LeftIdeal) (O' : Lattice) : Bool :=
   isOrderCert p O' && latWf I.lattice && prodsContained p I.lattice O' I.lattice &&
   covolRatioIs O' I.order 1 1
 
-/-- the lattice `L·x` (columns `b_k·x`), in HNF with reduced denominator -/
-def latMulElem (p : Int) (L : Lattice) (x : Elem) : Lattice :=
-  let c (k : Nat) := (algMul p (latCol L k) x).coord
-  latHnf ⟨L.denom * x.denom, Mat4.ofCols (c 0) (c 1) (c 2) (c 3)⟩
+/-- the lattice `L·x` (columns `b_k·x`), in HNF with reduced denominator: the same computation as
+    `quat_lideal_create_principal` performs on the order's basis -/
+def latMulElem (p : Int) (L : Lattice) (x : Elem) : Lattice := principalLattice p x L
 
 /-- Certificate check for `quat_lideal_isom(iso; I1, I2) = 1`: `I1·iso = I2` as lattices
     (`I2` in HNF with reduced denominator, as every constructor leaves it) -/
 def isomCert (p : Int) (I1 I2 : Lattice) (iso : Elem) : Bool :=
-  iso.denom != 0 && latEqual (latMulElem p I1 iso) I2
+  iso.denom != 0 && I1.denom != 0 && latWf (latMulElem p I1 iso) && latWf I2 && latEqual (latMulElem p I1 iso) I2
+
+/-- the check `quat_lideal_create_from_primitive` performs only in debug builds, without the division:
+    `covol(I) = N(I)²·covol(O)`, i.e. `N(I)² = [O : I]` -/
+def normCovolOk (I : LeftIdeal) : Bool :=
+  latWf I.lattice && latWf I.order && covolRatioIs I.lattice I.order (I.norm * I.norm) 1
+
+/-- certificate check for a reported generator: `O·g + O·N(I)` (recomputed by the verified constructor) is `I` -/
+def generatorCert (p : Int) (I : LeftIdeal) (g : Elem) : Bool :=
+  g.denom != 0 && I.order.denom != 0 && latWf I.lattice && latWf (createFromPrimitive p g I.norm I.order).lattice &&
+  latEqual (createFromPrimitive p g I.norm I.order).lattice I.lattice
 
 /-- left-ideal test: `O·I ⊆ I` on basis vectors -/
 def isLeftIdealCert (p : Int) (O I : Lattice) : Bool := latWf I && prodsContained p O I I
